@@ -29,11 +29,15 @@ type PrivDev struct {
 	WithholdMove int
 	Moves        int
 	withholdNow  bool
+	// WithholdEmpty >= 0: the prompt is withheld once after the bare return number WithholdEmpty
+	// (0-based, counted over the session): a prompt probe that gets no answer in time.
+	WithholdEmpty int
+	Empties       int
 }
 
 // NewPrivDev builds the device in mode start.
 func NewPrivDev(levels []PrivLevel, secret, start string) *PrivDev {
-	d := &PrivDev{CLI: NewCLI(), Levels: levels, Secret: secret, WithholdMove: -1}
+	d := &PrivDev{CLI: NewCLI(), Levels: levels, Secret: secret, WithholdMove: -1, WithholdEmpty: -1}
 	d.Mode = start
 	d.Prompt = func(c *CLI) string {
 		if d.withholdNow {
@@ -71,6 +75,10 @@ func (d *PrivDev) handle(c *CLI, line string) string {
 		return "% Access denied\n"
 	}
 	if line == "" {
+		if d.Empties == d.WithholdEmpty {
+			d.withholdNow = true
+		}
+		d.Empties++
 		return ""
 	}
 	for i := range d.Levels {
